@@ -64,7 +64,11 @@ func (b *expandBody) decodeSpec(blockS *hcl.BlockHeaderSchema, rawSpec *hcl.Bloc
 	//// for_each attribute
 
 	eachAttr := specContent.Attributes["for_each"]
-	eachVal, eachDiags := eachAttr.Expr.Value(b.forEachCtx)
+	// An expanded body may be used from several goroutines at once, and
+	// evaluating an expression concurrently requires a distinct context for
+	// each evaluation (a splat expression keeps per-context state), so we
+	// evaluate in a fresh child of the shared context.
+	eachVal, eachDiags := eachAttr.Expr.Value(b.forEachCtx.NewChild())
 	diags = append(diags, eachDiags...)
 	if diags.HasErrors() {
 		return nil, diags
